@@ -207,11 +207,14 @@ func (t *Task) Schedule(executeAt time.Time) *Task {
 	t.lock.Lock()
 	defer t.lock.Unlock()
 
-	t.executeAt = executeAt
-
 	if executeAt.IsZero() {
+		// Take the task off the schedule before clearing the time: the
+		// schedule handler would read a zero time of an entry that is still in
+		// the schedule as "due now".
 		t.removeFromQueues()
+		t.executeAt = executeAt
 	} else {
+		t.executeAt = executeAt
 		t.addToSchedule(false)
 	}
 	return t
